@@ -1,0 +1,11 @@
+//go:build verif
+
+package utils
+
+// Contracts for the deductive verifier in /verif (build tag verif).
+
+//@ func Abs
+//@   props C19 C05
+//@   nopanic
+//@   ensures v < 0 ==> result == -v
+//@   ensures v >= 0 ==> result == v
